@@ -220,11 +220,15 @@ def build_cases(spec, tier, uni, rnd):
             style = render.Style(method_style=(rnd.random() < 0.7))
             declv = opts.get("declv", "none")
             md = None
+            if declv != "none" or opts.get("fnmd"):
+                md = [{k: v for k, v in m.items() if v != ""} for m in uni["md"][b]]
             if declv != "none":
                 cm = dict(uni["collmd"][b][declv])
                 if b != "atlas":
                     cm.pop("link_libraries", None)
-                md = [{k: v for k, v in m.items() if v != ""} for m in uni["md"][b]] + [cm]
+                md.append(cm)
+            if opts.get("fnmd"):
+                md += [{k: v for k, v in m.items() if v != ""} for m in uni["fnmd"][b]]
             cases.append({"id": cid, "backend": b, "q": t["q"], "support": spec.support or t["support"], "declv": declv,
                           "src": render.render(t["q"], uni, b, style, md=md)})
     return cases, total, exhaustive, gen_states, gen_trans
